@@ -99,27 +99,21 @@ Predicts(r, V) == NotJudged(r) \/
   /\ r.outcome = "ok" /\ r.out1 = Render(m.reads1) /\ r.out2 = Render(m.reads2)
   /\ r.caller1 = m.caller1 /\ r.caller2 = m.caller2 /\ UsedSet(r) = m.used /\ Len(r.used) = m.nglobals
 
-(* ---- record-walk skeleton (same in every record-per-line Trace spec; see spec/README) ---- *)
-VARIABLES l, nbad, ndriftW, ndriftF
+(* ---- record walk (skeleton of spec/lib2/Trace_HTMLEscape.tla; every predicate is evaluated once per
+        record at constant level, the walk only counts, and grouping by signature is left to the check) ---- *)
+VARIABLES l, nbad
 Obs == ndJsonDeserialize("obs.ndjson")
-Init == l = 1 /\ nbad = 0 /\ ndriftW = 0 /\ ndriftF = 0
-Next == /\ l <= Len(Obs) /\ l' = l + 1 /\ nbad' = nbad + (IF RecOk(Obs[l]) THEN 0 ELSE 1)
-        /\ ndriftW' = ndriftW + (IF Predicts(Obs[l], AsWritten) THEN 0 ELSE 1)
-        /\ ndriftF' = ndriftF + (IF Predicts(Obs[l], Fixed) THEN 0 ELSE 1)
-BadIdx == SelectSeq([i \in 1..Len(Obs) |-> i], LAMBDA i : ~RecOk(Obs[i]))
-\* Many records can share one root cause (and a listed known finding must not crowd out another
-\* violation), so bad.ndjson has ONE line per distinct signature: its first record and how many share it.
-BadReport ==
-  LET B == BadIdx
-      S == [j \in 1..Len(B) |-> Sig(Obs[B[j]])]
-      D == SetToSeq({S[j] : j \in 1..Len(B)})
-  IN [d \in 1..Len(D) |->
-        LET J == {j \in 1..Len(B) : S[j] = D[d]}
-            f == CHOOSE j \in J : \A m \in J : j <= m
-        IN [k |-> B[f], id |-> Obs[B[f]].id, sig |-> D[d], count |-> Cardinality(J), nbad |-> nbad]]
+ObsIdx == [i \in 1..Len(Obs) |-> i]
+BadIdx == SelectSeq(ObsIdx, LAMBDA i : ~RecOk(Obs[i]))
+BadSet == {BadIdx[j] : j \in 1..Len(BadIdx)}
+NDriftAsWritten == Len(SelectSeq(ObsIdx, LAMBDA i : ~Predicts(Obs[i], AsWritten)))
+NDriftFixed == Len(SelectSeq(ObsIdx, LAMBDA i : ~Predicts(Obs[i], Fixed)))
+Init == l = 1 /\ nbad = 0
+Next == l <= Len(Obs) /\ l' = l + 1 /\ nbad' = nbad + (IF l \in BadSet THEN 1 ELSE 0)
 Done == l = Len(Obs) + 1 =>
-          /\ ndJsonSerialize("drift.ndjson", <<[aswritten |-> ndriftW, fixed |-> ndriftF, records |-> Len(Obs)]>>)
-          /\ ndJsonSerialize("badids.ndjson", <<[ids |-> [j \in 1..Len(BadIdx) |-> Obs[BadIdx[j]].id]]>>)
-          /\ ndJsonSerialize("bad.ndjson", IF nbad = 0 THEN <<>> ELSE BadReport)
+          /\ nbad = Len(BadIdx)
+          /\ ndJsonSerialize("drift.ndjson", <<[aswritten |-> NDriftAsWritten, fixed |-> NDriftFixed, records |-> Len(Obs)]>>)
+          /\ ndJsonSerialize("bad.ndjson",
+                [j \in 1..Len(BadIdx) |-> [k |-> BadIdx[j], id |-> Obs[BadIdx[j]].id, sig |-> Sig(Obs[BadIdx[j]]), nbad |-> nbad]])
 Consumed == TLCGet("stats").diameter - 1 = Len(Obs)
 =============================================================================
